@@ -7,7 +7,7 @@ PID = "C11"
 MODULE, PKG, BIN = "aspen", "./verifh/c11", "c11"
 COQ_IMPORTS = "From Synnax Require Import Common.Base Aspen.Pledge Monitors.Mon_C11."
 CASE_TYPE = "case_t"
-COUNTS = {"quick": 400, "thorough": 8000}
+COUNTS = {"quick": 1500, "thorough": 12000}
 SHARD = 100
 PROCS = 8
 HARNESS_TIMEOUT = 600
@@ -405,7 +405,7 @@ def small_stale_case():
             "rt_us": 2000}
 
 
-EXTRA_COUNTS = {"quick": 150, "thorough": 4000}
+EXTRA_COUNTS = {"quick": 400, "thorough": 5000}
 
 
 def extra(ctx):
